@@ -192,6 +192,11 @@ def settle(run, drv, expected_by_case):
             run.fail("impl-vs-model", case, {"correspondence": f"Impl.{kind}",
                                              "model": left.split()[:12], "impl": impl_stream[:12]})
         if right.split() != ref_stream + tot(ref_stream):
+            if case.get("source") == "own":
+                # the metafile was written by the code under test; when it is not what a creator
+                # should write, the two specifications may read it differently - the creation
+                # checks judge that, and the implementation-vs-specification comparison above stands
+                continue
             run.fail("spec-vs-ref", case, {"lean_spec": right.split()[:12], "ref": ref_stream[:12]})
 
 
@@ -276,6 +281,14 @@ def run(tier, seed, replay=None):
                 cases.append({"files": [("f.bin", Blob.hexb(data).token())], "pl": 16384, "version": version,
                               "single": True, "source": source, "creator": creators[len(cases) % len(creators)],
                               "via_parent": False, "damage": [], "utf8_digest": True})
+    if not replay:
+        # attributes (executable, hidden) on REAL files of a v1 / hybrid list: they are payload
+        from harness.common import Blob as _Bl
+        for version in (1, 3):
+            cases.append({"files": [("a", _Bl.rand(3, 20000).token()), ("d/b", _Bl.rand(4, 16384).token()),
+                                    ("d/c", _Bl.rand(5, 7).token())], "pl": 16384, "version": version,
+                          "single": False, "source": "ref", "creator": "v1", "via_parent": False, "damage": [],
+                          "attrs": {"a": "x", "d/b": "xh", "d/c": "h"}})
     for case in cases:
         if case.get("big_piece") or case.get("many_files"):
             continue
